@@ -15,7 +15,13 @@ func fnWatch(ctx *cmdContext, args map[string]any) (output respValue, err error)
 
 	ids := ctx.dsc.getIds(keyStrs...)
 	for idx, id := range ids {
-		ctx.cs.watches[watchKey{ds: ctx.dsc.ds, key: keyStrs[idx]}] = id
+		wk := watchKey{ds: ctx.dsc.ds, key: keyStrs[idx]}
+		if _, watched := ctx.cs.watches[wk]; watched {
+			// already watched: keep the version seen by the first WATCH, otherwise a
+			// modification made in between would be forgotten
+			continue
+		}
+		ctx.cs.watches[wk] = id
 	}
 
 	output.data = rstrOK
